@@ -32,9 +32,10 @@ VARIABLES stacks,    \* builder -> sequence of <<module name, class name>>
           keylit,    \* constant-cache key -> <<python type, text, element type>>
           ended,     \* graphs whose build_graph returned
           nodes,     \* node tokens seen
+          inl,       \* builders inside call_inline (nodes cloned from a function body keep the metadata of their origin)
           stats,     \* <<#nodes, #constants, #initializers+parameters, #scopes pushed>>
           rerr
-bvars == <<stacks, inherited, par, gOf, defs, nnames, vnames, ncount, inits, cache, keylit, ended, nodes, stats, rerr>>
+bvars == <<stacks, inherited, par, gOf, defs, nnames, vnames, ncount, inits, cache, keylit, ended, nodes, inl, stats, rerr>>
 
 SeqSet(s) == {s[i] : i \in 1..Len(s)}
 Range(f) == {f[x] : x \in DOMAIN f}
@@ -78,9 +79,9 @@ BInit(root, graph, inputs, input_names, init_pairs, node_triples) ==
   /\ ncount = (graph :> Len(node_triples))
   /\ inits = [n \in {init_pairs[i][1] : i \in 1..Len(init_pairs)} |-> init_pairs[CHOOSE i \in 1..Len(init_pairs) : init_pairs[i][1] = n][2]]
   /\ cache = [k \in {} |-> ""] /\ keylit = [k \in {} |-> <<>>]
-  /\ ended = {} /\ nodes = {node_triples[i][1] : i \in 1..Len(node_triples)} /\ stats = <<0, 0, 0, 0>> /\ rerr = <<>>
+  /\ ended = {} /\ nodes = {node_triples[i][1] : i \in 1..Len(node_triples)} /\ inl = {} /\ stats = <<0, 0, 0, 0>> /\ rerr = <<>>
 
-Keep == UNCHANGED <<stacks, inherited, par, gOf, defs, nnames, vnames, ncount, inits, cache, keylit, ended, nodes, stats>>
+Keep == UNCHANGED <<inl, stacks, inherited, par, gOf, defs, nnames, vnames, ncount, inits, cache, keylit, ended, nodes, stats>>
 
 -----------------------------------------------------------------------------
 ChildClauses(b, parent, graph, inputs) ==
@@ -93,20 +94,20 @@ DoChild(b, parent, graph, inputs, input_names, node_triples) ==
   /\ defs' = Upd(defs, graph, SeqSet(inputs) \cup UNION {SeqSet(node_triples[i][3]) : i \in 1..Len(node_triples)})
   /\ nnames' = Upd(nnames, graph, {node_triples[i][2] : i \in 1..Len(node_triples)})
   /\ vnames' = Upd(vnames, graph, SeqSet(input_names)) /\ ncount' = Upd(ncount, graph, Len(node_triples))
-  /\ UNCHANGED <<inits, cache, keylit, ended, nodes, stats>>
+  /\ UNCHANGED <<inl, inits, cache, keylit, ended, nodes, stats>>
 
 InheritClauses(b, st) ==
   <<<<"inherit_builder_known", Known(b) /\ par[b] # "">>,
     <<"inherit_copies_the_parent_stack", (Known(b) /\ par[b] \in DOMAIN stacks) => st = stacks[par[b]]>>>>
 DoInherit(b, st) == /\ stacks' = Upd(stacks, b, st) /\ inherited' = Upd(inherited, b, st)
-                    /\ UNCHANGED <<par, gOf, defs, nnames, vnames, ncount, inits, cache, keylit, ended, nodes, stats>>
+                    /\ UNCHANGED <<inl, par, gOf, defs, nnames, vnames, ncount, inits, cache, keylit, ended, nodes, stats>>
 
 PushClauses(b) == <<<<"push_builder_known", Known(b)>>>>
 DoPush(b, nm, cls) == /\ stacks' = Upd(stacks, b, Append(stacks[b], <<nm, cls>>)) /\ stats' = [stats EXCEPT ![4] = @ + 1]
-                      /\ UNCHANGED <<inherited, par, gOf, defs, nnames, vnames, ncount, inits, cache, keylit, ended, nodes>>
+                      /\ UNCHANGED <<inl, inherited, par, gOf, defs, nnames, vnames, ncount, inits, cache, keylit, ended, nodes>>
 PopClauses(b) == <<<<"pop_builder_known", Known(b)>>, <<"pop_stack_not_empty", Known(b) => stacks[b] # <<>> >>>>
 DoPop(b) == /\ stacks' = Upd(stacks, b, SubSeq(stacks[b], 1, Len(stacks[b]) - 1))
-            /\ UNCHANGED <<inherited, par, gOf, defs, nnames, vnames, ncount, inits, cache, keylit, ended, nodes, stats>>
+            /\ UNCHANGED <<inl, inherited, par, gOf, defs, nnames, vnames, ncount, inits, cache, keylit, ended, nodes, stats>>
 
 InputClauses(b, graph, v, nm) ==
   <<<<"input_builder_known", Known(b)>>,
@@ -116,7 +117,7 @@ InputClauses(b, graph, v, nm) ==
 DoInput(b, graph, v, nm, dflt) ==
   /\ defs' = Upd(defs, graph, defs[graph] \cup {v}) /\ vnames' = Upd(vnames, graph, vnames[graph] \cup {nm})
   /\ inits' = IF dflt /\ par[b] = "" THEN Upd(inits, nm, v) ELSE inits
-  /\ UNCHANGED <<stacks, inherited, par, gOf, nnames, ncount, cache, keylit, ended, nodes, stats>>
+  /\ UNCHANGED <<inl, stacks, inherited, par, gOf, nnames, ncount, cache, keylit, ended, nodes, stats>>
 
 \* GraphBuilder.initializer (also the path constants take, with qualify = FALSE)
 InitClauses(b, requested, nm, qualify, v, existed, graph) ==
@@ -127,7 +128,7 @@ InitClauses(b, requested, nm, qualify, v, existed, graph) ==
     <<"init_name_registered_once", nm \notin DOMAIN inits>>,
     <<"init_value_fresh", v \notin Range(inits) /\ v \notin AllDefs>>>>
 DoInit(nm, v) == /\ inits' = Upd(inits, nm, v) /\ stats' = [stats EXCEPT ![3] = @ + 1]
-                 /\ UNCHANGED <<stacks, inherited, par, gOf, defs, nnames, vnames, ncount, cache, keylit, ended, nodes>>
+                 /\ UNCHANGED <<inl, stacks, inherited, par, gOf, defs, nnames, vnames, ncount, cache, keylit, ended, nodes>>
 
 \* Parameter._realize: the name is qualified with the ROOT builder's scope stack (known finding param_subgraph_scope when
 \* that differs from the scope of the calling sub-builder); direct assignment overwrites an initializer of the same name
@@ -150,7 +151,7 @@ ConstClauses(b, key, lit, hit, v, nm, size) ==
     <<"const_miss_value_not_cached_under_another_key", ~hit => v \notin Range(cache)>>,
     <<"const_cache_size", size = Cardinality(DOMAIN cache \cup {key})>>>>
 DoConst(key, lit, v) == /\ cache' = Upd(cache, key, v) /\ keylit' = Upd(keylit, key, lit) /\ stats' = [stats EXCEPT ![2] = @ + 1]
-                        /\ UNCHANGED <<stacks, inherited, par, gOf, defs, nnames, vnames, ncount, inits, ended, nodes>>
+                        /\ UNCHANGED <<inl, stacks, inherited, par, gOf, defs, nnames, vnames, ncount, inits, ended, nodes>>
 
 OtherGraphs(g) == DOMAIN nnames \ {g}
 NodeClauses(b, graph, id, nm, ins, outs, out_names, annotated, scopes, classes, namespace, count, subs) ==
@@ -164,15 +165,15 @@ NodeClauses(b, graph, id, nm, ins, outs, out_names, annotated, scopes, classes, 
     <<"node_name_unique_across_graphs", nm # "" => \A g \in OtherGraphs(graph) : nm \notin nnames[g]>>,
     <<"node_output_names_unique_in_graph", graph \in DOMAIN vnames => (\A i \in 1..Len(out_names) : out_names[i] = "" \/ out_names[i] \notin vnames[graph]) /\ NoDup(out_names)>>,
     <<"node_output_names_unique_across_graphs", \A g \in DOMAIN vnames \ {graph} : \A i \in 1..Len(out_names) : out_names[i] = "" \/ out_names[i] \notin vnames[g]>>,
-    <<"node_scope_names_are_the_scope_stack", (Known(b) /\ annotated) => scopes = Names(stacks[b])>>,
-    <<"node_class_hierarchy_is_the_scope_stack", (Known(b) /\ annotated) => classes = Classes(stacks[b])>>,
-    <<"node_namespace_is_the_scope_stack", (Known(b) /\ annotated) => namespace = Namespace(stacks[b])>>,
+    <<"node_scope_names_are_the_scope_stack", (Known(b) /\ annotated /\ b \notin inl) => scopes = Names(stacks[b])>>,
+    <<"node_class_hierarchy_is_the_scope_stack", (Known(b) /\ annotated /\ b \notin inl) => classes = Classes(stacks[b])>>,
+    <<"node_namespace_is_the_scope_stack", (Known(b) /\ annotated /\ b \notin inl) => namespace = Namespace(stacks[b])>>,
     <<"node_subgraphs_are_finished", \A i \in 1..Len(subs) : subs[i] \in DOMAIN defs => subs[i] \in ended>>>>
 DoNode(graph, id, nm, outs, out_names) ==
   /\ defs' = Upd(defs, graph, defs[graph] \cup SeqSet(outs)) /\ nnames' = Upd(nnames, graph, nnames[graph] \cup {nm})
   /\ vnames' = Upd(vnames, graph, vnames[graph] \cup (SeqSet(out_names) \ {""})) /\ ncount' = Upd(ncount, graph, ncount[graph] + 1)
   /\ nodes' = nodes \cup {id} /\ stats' = [stats EXCEPT ![1] = @ + 1]
-  /\ UNCHANGED <<stacks, inherited, par, gOf, inits, cache, keylit, ended>>
+  /\ UNCHANGED <<inl, stacks, inherited, par, gOf, inits, cache, keylit, ended>>
 
 EndGraphClauses(b, graph, outs, st) ==
   <<<<"endgraph_builder_known", Known(b)>>,
@@ -180,13 +181,18 @@ EndGraphClauses(b, graph, outs, st) ==
     <<"endgraph_outputs_visible", Known(b) => \A i \in 1..Len(outs) : VisibleOrForeign(b, outs[i])>>,
     <<"endgraph_scope_stack_restored", Known(b) => (st = inherited[b] /\ stacks[b] = st)>>>>
 DoEndGraph(graph) == /\ ended' = ended \cup {graph}
-                     /\ UNCHANGED <<stacks, inherited, par, gOf, defs, nnames, vnames, ncount, inits, cache, keylit, nodes, stats>>
+                     /\ UNCHANGED <<inl, stacks, inherited, par, gOf, defs, nnames, vnames, ncount, inits, cache, keylit, nodes, stats>>
 
 OutputClauses(b, graph, v) ==
   <<<<"output_builder_known", Known(b)>>,
     <<"output_goes_to_the_builders_graph", Known(b) => graph = gOf[b]>>,
     <<"output_value_visible", Known(b) => VisibleOrForeign(b, v)>>>>
 
+InlineBeginClauses(b) == <<<<"inline_builder_known", Known(b)>>, <<"inline_not_nested", b \notin inl>>>>
+DoInlineBegin(b) == /\ inl' = inl \cup {b}
+                    /\ UNCHANGED <<stacks, inherited, par, gOf, defs, nnames, vnames, ncount, inits, cache, keylit, ended, nodes, stats>>
+DoInlineEnd(b) == /\ inl' = inl \ {b}
+                  /\ UNCHANGED <<stacks, inherited, par, gOf, defs, nnames, vnames, ncount, inits, cache, keylit, ended, nodes, stats>>
 InlineEndClauses(b, outs, ns) ==
   <<<<"inline_builder_known", Known(b)>>,
     <<"inline_nodes_were_added", SeqSet(ns) \subseteq nodes>>,
